@@ -10,7 +10,7 @@ from ..oracles import clustering as oc
 
 PROPERTY = "C09"
 RULE = ("Cases = (kind, matrix) with kind in bu/bd (0/1, float64 or int64; complete enumeration of labelled graphs/digraphs up to the "
-        "stated n plus random), wu/wd (weights k/8 or generic floats in (0,1]) and sign (symmetric, weights +-k/8); empty diagonal; "
+        "stated n plus random), wu/wd (weights k/8 or generic floats in (0,1], also the whole matrix times 2^-30, 2^-60, 2^-100) and sign (symmetric, weights +-k/8); empty diagonal; "
         "families: ER, trees+chords, bipartite, stars, rings, graphs with isolated and degree-1 nodes. Oracle = O(n^3) enumeration of "
         "node triples of the published definitions (neighbour-pair fraction, Fagiolo's directed count, Onnela intensity; transitivity = "
         "sum of numerators / sum of denominators with no per-node masking). Non-trivial = at least one triangle AND at least one node "
@@ -21,7 +21,11 @@ MIN_NONTRIVIAL = {"quick": 300, "thorough": 3000}
 RT, AT = 1e-10, 1e-12
 
 
-def _vec(name, got, num, den, case, fails, unit_weights):
+_ATS = [1.0]     # absolute tolerance is relative to the largest weight (intensities are linear in the unit of the weights)
+
+
+def _vec(name, got, num, den, case, fails, unit_weights, ratio=False):
+    at = AT if ratio else AT * _ATS[0]
     want = oc.coef(num, den)
     try:
         got = np.asarray(got, dtype=float)
@@ -37,7 +41,7 @@ def _vec(name, got, num, den, case, fails, unit_weights):
                 fails.append(Failure("%s:node-without-triangle-not-zero" % name,
                                      "node %d has no triangle / <2 neighbours but value is %r" % (u, got[u]), case))
                 return
-        elif not np.isclose(got[u], want[u], rtol=RT, atol=AT):
+        elif not np.isclose(got[u], want[u], rtol=RT, atol=at):
             fails.append(Failure("%s:value-differs-from-definition" % name,
                                  "node %d: returned %r, triple enumeration gives %r" % (u, got[u], want[u]), case))
             return
@@ -56,7 +60,7 @@ def _scal(name, got, num, den, case, fails):
         if not (np.isnan(got) or got == 0):
             fails.append(Failure("%s:no-connected-triple" % name, "returned %r for a graph with no connected triple" % got, case))
         return
-    if not np.isclose(got, want, rtol=RT, atol=AT):
+    if not np.isclose(got, want, rtol=RT, atol=AT * _ATS[0]):
         fails.append(Failure("%s:value-differs-from-definition" % name,
                              "returned %r, triangle-to-triple ratio by enumeration is %r" % (got, want), case,
                              {"some_node_without_triangle": bool(np.any(num == 0))}))
@@ -69,6 +73,11 @@ def check(case, ctx):
     W = gen.layout(np.array(case["W"]), case.get("order"))
     fails = []
     ctx.label("kind:" + kind)
+    _ATS[0] = 1.0
+    if kind in ("wu", "wd", "sign") and W.size and np.any(W):
+        _ATS[0] = min(1.0, float(np.max(np.abs(W))))
+        if _ATS[0] < 1e-6:
+            ctx.label("tiny-weights")
     if W.dtype.kind == "i":
         ctx.label("int64")
 
@@ -109,13 +118,13 @@ def check(case, ctx):
         if r is not None:
             try:
                 zp, zn = r
-                _vec("clustering_coef_wu_sign(zhang,pos)", zp, *oc.zhang_terms(W0 * (W0 > 0)), case, fails, True)
-                _vec("clustering_coef_wu_sign(zhang,neg)", zn, *oc.zhang_terms(-W0 * (W0 < 0)), case, fails, True)
+                _vec("clustering_coef_wu_sign(zhang,pos)", zp, *oc.zhang_terms(W0 * (W0 > 0)), case, fails, True, ratio=True)
+                _vec("clustering_coef_wu_sign(zhang,neg)", zn, *oc.zhang_terms(-W0 * (W0 < 0)), case, fails, True, ratio=True)
             except TypeError:
                 fails.append(Failure("clustering_coef_wu_sign(zhang):bad-return", repr(r)[:200], case))
         r = run(bct.clustering_coef_wu_sign, gen.layout(W.copy(), case.get("order")), coef_type="costantini")
         if r is not None:
-            _vec("clustering_coef_wu_sign(costantini)", r, *oc.costantini_terms(W0), case, fails, False)
+            _vec("clustering_coef_wu_sign(costantini)", r, *oc.costantini_terms(W0), case, fails, False, ratio=True)
         return fails
 
     if np.any(num > 0) and np.any(num == 0):
@@ -205,6 +214,9 @@ def cases(draw, nmax, kinds):
         W = draw(gen.weights_for(A, draw(st.sampled_from(["dyadic", "float"])), directed))
     else:
         W = draw(gen.weights_for(A, "signed", False))
+    if kind not in ("bu", "bd"):
+        # the same network in a much smaller unit (still inside [0,1]): definitions are linear / invariant in the unit
+        W = W * draw(st.sampled_from([1.0, 2.0 ** -30, 1.0, 2.0 ** -60, 2.0 ** -100]))
     return {"kind": kind, "W": W, "order": draw(st.sampled_from(gen.ORDERS)), "drop": draw(st.integers(0, 2))}
 
 
